@@ -714,3 +714,25 @@ Proof.
     exfalso. destruct (Hskip He r Hrd Hge) as (ks & Hks & Hin). apply (Hun ks Hks Hin).
 Qed.
 End CrashRestart.
+
+(* a graceful stop with records read beyond the last ack: Stop leaves the stored position alone and
+   Teardown stores nothing that was not engine-acked, so the restart opens at the last ACKED record.
+   A Teardown that checkpoints the plugin's stop position (the last record PRODUCED) writes the
+   second log: rejected by the acceptor and by both monitors. *)
+Definition stop_cfg : cfg := mkCfg 1 [0] 2 true.
+Definition stop_schedule : list action :=
+  [ARead 0 1; ARead 0 2; ARead 0 3; ARead 0 4; ARead 0 5; AAck 0 [1; 2]; AFlush; AWriteDone true [] true;
+   ACallback 0; ACallback 0; ADeliver 0 true; AStop 0; ATdBegin 0; ATdWaited 0; ATdCancel 0; ATdDown 0 true].
+Definition stop_bad_log : list event :=
+  [ERead 0 1; ERead 0 2; ERead 0 3; ERead 0 4; ERead 0 5; EAck 0 [1; 2]; ETxBegin;
+   ECommit [mkW 0 1 2 true] true [(1, 2)]; EPAck 0 1 [1; 2]; ETdBegin 0; ETxBegin;
+   ECommit [mkW 0 0 5 true] true [(0, 5)]; ETdCancel 0; ETdEnd 0 true].
+
+Example stop_then_teardown_keeps_acked_position :
+  let y := run (mkM stop_cfg 100) (init_sys (mkM stop_cfg 100)) stop_schedule in
+  crash y 0 = (1, 2) /\ ereads 0 (log_of y) = [1; 2; 3; 4; 5] /\
+  reopened_at (mkM stop_cfg 100) (crash y) 0 = 2 /\
+  Mon_C03 true stop_cfg (log_of y) [(length (log_of y), 0, (1, 2))] = true /\
+  accepts stop_cfg stop_bad_log = false /\ Mon_C02 true stop_cfg stop_bad_log = false /\
+  Mon_C03 true stop_cfg stop_bad_log [] = false /\ Mon_C03 false stop_cfg stop_bad_log [] = false.
+Proof. vm_compute. repeat split. Qed.
